@@ -3,7 +3,7 @@
 (tools/confirm_seed.sh), run its property's quick check against it (tools/try_seed.sh: git -C /repo apply; ./check; checkout), and keep it under
 seeded/<ID-k>/ with what was run and what caught it.  Prints one line per seed: CAUGHT / NOINPUT (only no-failing-input-found) / MISSED / UNCONFIRMED."""
 import json, os, re, subprocess, sys
-OUT = "/tmp/seed/out"
+OUT = "/tmp/seed/out"; ROOT = os.environ.get("VERIF_ROOT", "/verif")
 names = sys.argv[1:] or sorted(os.listdir(OUT))
 for d in names:
     src = os.path.join(OUT, d); prop = d.split("-")[0]
@@ -11,17 +11,17 @@ for d in names:
     wt = f"/tmp/seed/wt-{prop}"
     conf = ""
     for attempt in range(3):   # the crate has one flaky statistical unit test (t::tests::test_moments): retry
-        conf = subprocess.run(["tools/confirm_seed.sh", wt, src], capture_output=True, text=True, cwd="/verif").stdout.strip().splitlines()[-1]
+        conf = subprocess.run(["tools/confirm_seed.sh", wt, src], capture_output=True, text=True, cwd=ROOT).stdout.strip().splitlines()[-1]
         if "ok. 66 passed" in conf: break
     m = re.search(r"demo_with_change_exit=(\d+) demo_without_exit=(\d+)", conf)
     ok = "ok. 66 passed" in conf and "doc: test result: ok. 3 passed" in conf and m and m.group(1) != "0" and m.group(2) == "0"
     if not ok:
         print(f"{d} UNCONFIRMED {conf[:300]}"); continue
-    out = subprocess.run(["tools/try_seed.sh", prop, os.path.join(src, "patch.diff"), "quick"], capture_output=True, text=True, cwd="/verif").stdout
+    out = subprocess.run(["tools/try_seed.sh", prop, os.path.join(src, "patch.diff"), "quick"], capture_output=True, text=True, cwd=ROOT).stdout
     open(os.path.join(src, "try.out"), "w").write(out)
     classes, broken = [], []
     for mm in re.finditer(r"VIOLATION property=\S+ replay=(\S+)", out):
-        rp = os.path.join("/verif", mm.group(1))
+        rp = os.path.join(ROOT, mm.group(1))
         if os.path.exists(rp):
             r = json.load(open(rp))
             if r.get("kind") == "failing-input": classes.append(r["class"]); broken = r.get("broken_obligations", broken)
